@@ -9,9 +9,11 @@ N = "BemppVerif.C08."
 THEOREMS = []
 PARTIAL = {N + "farfield_translation": "the far-field kernels of the code use only Re k (known finding farfield-ignores-imag-k): "
            "the translation law and 'far field = limit' are theorems for real k and for the canonical complex-k limit; the "
-           "Cartesian Laplacian of a radial function and the Maxwell vector identities are not formalised (oracle)"}
+           "Cartesian Laplacian of a radial function and the Maxwell vector identities (curl E = ik H, div E = 0) are not formalised "
+           "(oracle); the traced Maxwell potentials / far fields equal their closed-form kernel sums (generated theorems), in which "
+           "the gradient of the kernel appears as G (ik d - 1)/d^2 (x - y) exactly as the source computes it"}
 TRUSTED = [
-    "Tie B: assembler tracing (vlib/asmtrace.py, props/asm_gen.py) and kernel tracing (props/kernels_gen.py): the generated "
+    "Tie B: assembler tracing (vlib/asmtrace.py, props/asm_gen.py, props/asm_gen_mx.py) and kernel tracing (props/kernels_gen.py): the generated "
     "theorems are about terms recorded while running the undecorated source of the real functions",
     "hand model Model/Asm.lean tied to the source by the generated AsmMatch theorems (symbolic, one generic configuration)",
     "classical analysis that is used but not formalised is named in PARTIAL",
@@ -19,7 +21,7 @@ TRUSTED = [
 ]
 ASSUMPTIONS = []
 RULE = 'correspondence: compiled kernels/assemblers vs their traces at random numeric configurations; oracle: props/c08_oracle.py'
-LEVEL_TEXT = "Lean 4 theorems: every traced kernel (20) equals its canonical closed form; the potential assembler computes the kernel sum; the canonical kernels satisfy g''+2g'/r+k^2 g = 0 (Laplace, modified, Helmholtz with complex k, via HasDerivAt) and are normal derivatives of each other; r e^{-ikr} G(r x, y) -> e^{-ik x.y}/(4 pi) (Filter.Tendsto, complex k); translation law of the far-field kernels."
+LEVEL_TEXT = "Lean 4 theorems: every traced kernel (20) equals its canonical closed form; the potential assembler computes the kernel sum; the canonical kernels satisfy g''+2g'/r+k^2 g = 0 (Laplace, modified, Helmholtz with complex k, via HasDerivAt) and are normal derivatives of each other; r e^{-ikr} G(r x, y) -> e^{-ik x.y}/(4 pi) (Filter.Tendsto, complex k); translation law of the far-field kernels.  Maxwell: the traced maxwell_efield_potential / maxwell_mfield_potential / maxwell_efield_far_field / maxwell_mfield_far_field (12 entries each: 3 components x 4 points) equal sum_sigma sum_q G(x,y_q) [ik F - (x-y)(ik d - 1) Dv/(ik d^2)], sum (grad G x F), sum G (ik F - x Dv), sum ik G (x x F) with F = w ie f(y_q), Dv = w ie div f(y_q) over the library's own quadrature points."
 LEVEL_NOTE = 'partial: 3-D Laplacian of radial functions and Maxwell vector calculus are trusted/oracle; known finding for Im k in the far-field kernels.'
 TECHNIQUE = 'Lean 4 proof (ring_nf on traced kernels, Mathlib calculus) + numerical oracle'
 
@@ -28,7 +30,7 @@ def generate(ctx):
     info = dict(kernels=shared.gen_kernels()[0], asm=shared.gen_asm()[0])
     THEOREMS[:] = ([N + t for t in ("farfield_translation", "farfield_dl_translation", "real_op_complex_density")]
                    + ["BemppVerif.C02.potential_refines_spec", "BemppVerif.C02.potential_of_space"]
-                   + shared.asm_theorems("potential_matches")
+                   + shared.asm_theorems("potential_matches") + shared.mx_theorems("C08")
                    + sum(shared.KERNEL_FACTS.values(), []) + sum(shared.CALCULUS.values(), []))
     info.update(shared.gen_ctors()[0])
     THEOREMS.extend(shared.ctor_theorems('laplace_potential', 'helmholtz_potential', 'modified_potential', 'maxwell_potential', 'helmholtz_far_field', 'maxwell_far_field')
